@@ -44,6 +44,7 @@ class Ctx:
         self.violations = []      # list of dict(signature, what, replay)
         self.known_hits = []
         self.tlc_runs = []
+        self.apalache_runs = []
         self.coverage = {}
         self.assumptions = []
         self.level = 'model_checking'
@@ -134,6 +135,33 @@ class Ctx:
                 raise Inconclusive('TLC did not complete on %s/%s:\n%s' % (module, cfg, tail(out, 40)))
             if errs and simulate is None:
                 raise Inconclusive('TLC error on %s/%s:\n%s' % (module, cfg, tail(out, 40)))
+        return res
+
+    def apalache_induction(self, module, label=None, timeout=600, expect_ok=True, subdir=None):
+        """Inductive-invariant check with Apalache on spec/<module>.tla (operators ConstInit, Init, IndInit, IndNext, IndInv):
+        Init => IndInv (length 0) and IndInv /\ IndNext => IndInv' (length 1).  Symbolic: constants stay unbounded where ConstInit
+        leaves them so.  Returns {'ok': bool, 'failed': 'base'|'step'|None}.  A failure on the shipped spec is a model-level
+        problem (inconclusive), never a verdict about the code."""
+        d = subdir or self.specdir()
+        res = {'module': module, 'label': label or ('inductive invariant (Apalache): ' + module), 'tool': 'apalache', 'ok': True, 'failed': None}
+        t0 = time.time()
+        for phase, args in (('base', ['--init=Init', '--length=0']), ('step', ['--init=IndInit', '--length=1'])):
+            out = os.path.join(self.scratch, 'apa-%s-%s-%d' % (module, phase, len(self.apalache_runs)))
+            cmd = ['apalache-mc', 'check', '--cinit=ConstInit', '--next=IndNext', '--inv=IndInv', '--out-dir=' + out] + args + [module + '.tla']
+            try:
+                p = subprocess.run(cmd, cwd=d, stdout=subprocess.PIPE, stderr=subprocess.STDOUT, timeout=timeout, text=True)
+            except subprocess.TimeoutExpired:
+                raise Inconclusive('Apalache timeout after %ss on %s (%s)' % (timeout, module, phase))
+            if 'EXITCODE: OK' in p.stdout and 'The outcome is: NoError' in p.stdout:
+                continue
+            if 'The outcome is: Error' in p.stdout and 'violated' in p.stdout:
+                res['ok'], res['failed'] = False, phase
+                break
+            raise Inconclusive('Apalache failed on %s (%s):\n%s' % (module, phase, tail(p.stdout, 30)))
+        res['wall_s'] = round(time.time() - t0, 2)
+        self.apalache_runs.append(res)
+        if expect_ok and not res['ok']:
+            raise Inconclusive('Apalache: the %s case of the inductive invariant of %s fails (model-level)' % (res['failed'], module))
         return res
 
     def tlc_totals(self):
@@ -268,6 +296,8 @@ class Ctx:
         cov.update(coverage)
         cov['tlc_runs'] = [{k: r.get(k) for k in ('label', 'module', 'cfg', 'generated', 'distinct', 'depth', 'wall_s')}
                            for r in self.tlc_runs]
+        if self.apalache_runs:
+            cov['apalache_runs'] = [{k: r.get(k) for k in ('label', 'module', 'ok', 'failed', 'wall_s')} for r in self.apalache_runs]
         cov['known_findings_matched'] = self.known_hits
         ev = {'property_id': self.prop, 'tier': self.tier, 'seed': self.seed, 'level': level or self.level,
               'coverage': cov, 'assumptions': (assumptions or []) + self.assumptions,
